@@ -16,8 +16,10 @@ DONE = {
     "C01": dict(
         text=("PSMachine is total (every step continues, ends or fails; budget and limits bound every run); TLC enumerates "
               "every operator of systemdict and CIDInit x adversarial operand tuples and size-parameterised recursion/growth "
-              "shapes; the harness runs each against the real readers (shapes in child processes) and reports panics, "
-              "process aborts and hangs. Bounded-exhaustive over the pools, sampled beyond; no proof of absence of panics."),
+              "shapes; the harness runs each against the real readers in child processes (address-space limit, watchdogs) and "
+              "reports panics, fatal runtime errors and hangs; hostile charstrings and subroutines, hostile lenIV, every PFB "
+              "stream of MC_PFB, corrupted files. A deliberate panic is the negative control of every run. "
+              "Bounded-exhaustive over the pools, sampled beyond; no proof of absence of panics."),
         ref="6.1, 11 C01", tech=TECH_MBT + " (crash oracle, child processes)"),
     "C02": dict(
         text=("PSOps.tla (PLRM semantics of the data operators with exact 64-bit integers, correctly rounded reals, "
@@ -27,7 +29,7 @@ DONE = {
         ref="6.1, 11 C02", tech=TECH_MBT),
     "C03": dict(
         text=("PSMachine.tla (small-step machine with continuation stack) is run by TLC on every program of a control-flow "
-              "grammar (17 forms x bodies x nesting) and on dictionary-stack lookup programs; action properties "
+              "grammar (24 forms x bodies x nesting) and on dictionary-stack lookup programs; action properties "
               "ExitScoping, ProcLiteralDeferred, StopIsSuccess are checked on the specification; every behaviour is replayed "
               "and final state, error name and operation count compared."),
         ref="6.1, 11 C03", tech=TECH_MBT),
@@ -72,7 +74,10 @@ DONE = {
               "the recorded file structure against T1File.tla (segment lengths, end marker, legal lead bytes, WritePDF "
               "lengths) and runs every integer glyph's charstring on the BuildChar machine T1Charstring.tla, demanding the "
               "input glyph and proper number formats; dictionaries, encoding and fractional outlines are compared by the "
-              "harness on the independently tokenized program."),
+              "harness on the independently tokenized program. In addition (TraceT1Exec) the written clear-text program of "
+              "small fonts is executed by the specification's own PostScript machine PSMachine.tla in TLC, which must end "
+              "with one font whose dictionaries, encoding, info strings, Private values and decrypted charstrings say what "
+              "the font says."),
         ref="6.5, 11 C08", tech="explicit TLA+ specification, trace validation of the writer's output with TLC"),
     "C09": dict(
         text=("RoundTrip.tla defines Equiv9 on projected fonts; the harness generates fonts along the axes the property "
